@@ -3341,6 +3341,10 @@ class GZipContentEncoding(OutputTransform):
                 self._compressible_type(ctype)
                 and (not finishing or len(chunk) >= self.MIN_LENGTH)
                 and ("Content-Encoding" not in headers)
+                # Responses that cannot have a body must not get a gzip
+                # header pushed into them by a flush() before finish().
+                and status_code not in (204, 304)
+                and not (100 <= status_code < 200)
             )
         if self._gzipping:
             headers["Content-Encoding"] = "gzip"
